@@ -298,6 +298,20 @@ def check_c17(tier, seed):
                     k, m = mutate(rng, inc)
                     root = [t for d in decls[:cut] for t in d] + [('kw', 'include'), ('str', f'inc{i}.mal')]
                     variants.append(('include-' + k, root, m))
+            # a damaged included file followed by a further (valid) include, directly or one level down
+            if len(decls) >= 3:
+                for _ in range(2):
+                    c1 = rng.randrange(1, len(decls) - 1)
+                    c2 = rng.randrange(c1 + 1, len(decls))
+                    k, m = mutate(rng, [t for d in decls[c1:c2] for t in d])
+                    write(scratch, f'ok{i}.mal', render_junk([t for d in decls[c2:] for t in d]))
+                    head = [t for d in decls[:c1] for t in d]
+                    if rng.random() < 0.5:
+                        root = head + [('kw', 'include'), ('str', f'inc{i}.mal'), ('kw', 'include'), ('str', f'ok{i}.mal')]
+                    else:
+                        write(scratch, f'mid{i}.mal', render_junk([('kw', 'include'), ('str', f'inc{i}.mal')]))
+                        root = head + [('kw', 'include'), ('str', f'mid{i}.mal'), ('kw', 'include'), ('str', f'ok{i}.mal')]
+                    variants.append(('include-then-include-' + k, root, m))
             for vi, (k, root, inc) in enumerate(variants):
                 text = render_junk(root)
                 T, le, pe, tree, P = antlr_run(text)
@@ -350,8 +364,8 @@ def check_c17(tier, seed):
                            'cause': 'model-mismatch', 'correspondence': 'corr_C17_parse (MalParse.parse_mal)', 'source': m['text'],
                            'included_file': m['included'], 'mismatching_cases': len(bad)})
     cov = {'evaluations': len(cases), 'distinct_nontrivial': len({m['text'] for m in metas if m['erroneous']}),
-           'rule': 'valid programs from random specifications and 13 mutants each (token deletion, insertion incl. characters outside the '
-                   'alphabet, duplication, truncation, swap, replacement, reserved-word misuse), 3 of them inside an included file; '
+           'rule': 'valid programs from random specifications and 15 mutants each (token deletion, insertion incl. characters outside the '
+                   'alphabet, duplication, truncation, swap, replacement, reserved-word misuse), 5 of them inside an included file, 2 of those followed by a further valid include (directly or one level down); '
                    'erroneous = the real lexer or parser reports an error; non-trivial = erroneous; distinct by text',
            'samples': [next((m['text'][:400] for m in metas if m['erroneous']), '')], 'mutation_kinds': kinds,
            'erroneous': sum(1 for m in metas if m['erroneous']), 'accepted': sum(1 for m in metas if not m['erroneous']),
